@@ -5,7 +5,8 @@
 (* back end the build offers.                                               *)
 EXTENDS Integers, Sequences, FiniteSets, TLC, Json, IOUtils, SequencesExt, Randomization, BigInt
 Thorough == "TIER" \in DOMAIN IOEnv /\ IOEnv.TIER = "thorough"
-Sub(S, n) == IF Thorough \/ Cardinality(S) <= n THEN S ELSE RandomSubset(n, S)
+\* (the thorough tier samples three times as many of each operand set)
+Sub(S, n) == LET m == IF Thorough THEN 3 * n ELSE n IN IF Cardinality(S) <= m THEN S ELSE RandomSubset(m, S)
 ZP(a, n) == ZPow(ZFromInt(a), n)
 ZI(n) == ZFromInt(n)
 Small == {ZI(n) : n \in {-12, -7, -2, -1, 0, 1, 2, 3, 5, 8, 12, 97, -360, 9999, 10000, -10001, 65536, 46341, 2147483647, -2147483647}}
